@@ -1,9 +1,10 @@
 (* C06 - completion items are applicable edits; lists honour limit and 'complete' flag.
    Models: Model/Snippet.v (Constraint.EmptyCompletionData for every constraint kind, with and without
    required-field prefilling), Model/Completion.v (candidate lists, limit, complete flag),
-   Base/Pos.v (edit range), Model/HookCands.v (attribute values with completion hooks); each compared with the implementation on every run. *)
+   Base/Pos.v (edit range), Model/HookCands.v (attribute values with completion hooks), Model/ValueCands.v (completion
+   inside attribute values: every constraint kind x every expression shape, with the recovery of dropped text); each compared with the implementation on every run. *)
 From Coq Require Import String List ZArith Bool.
-From HV Require Import Base.Pos Model.Schema Model.Ast Model.Snippet Model.Completion Proofs.SnippetProofs Proofs.CompletionProofs Model.HookCands Proofs.HookCandsProofs.
+From HV Require Import Base.Pos Model.Schema Model.Ast Model.Snippet Model.Completion Proofs.SnippetProofs Proofs.CompletionProofs Model.HookCands Proofs.HookCandsProofs Model.ValueTokens Model.ValueCands Proofs.ValueCandsProofs.
 
 (* the snippet of every constraint - at any nesting of lists, sets, tuples, maps, objects, one-of and
    type-driven expansions - is either empty (the caller falls back) or uses exactly the tab stops
@@ -60,3 +61,15 @@ Theorem C06_hooked_complete_flag_sound : forall max has_hooks string_typed resul
   (length exprc <= max)%nat.
 Proof. exact attr_value_completion_complete. Qed.
 Print Assumptions C06_hooked_complete_flag_sound.
+
+(* completion inside an attribute value - keyword, boolean, literal, collection, object-attribute and map-item
+   candidates and the places of reference / function candidates, under every constraint at any nesting, whatever
+   text surrounds the cursor: every edit range starts at or before the cursor and reaches it.
+   [wfc]: a traversal's range covers its root name and starts with it, a boolean literal's range covers its
+   text, an object item's key ends no later than its value (checked by the harness on every file). *)
+Theorem C06_value_candidates_reach_cursor : forall prefill file opens empties vals p fuel c e l,
+  cexpr_wf vals e ->
+  value_cands prefill file opens empties vals p fuel c e = Some (Some l) ->
+  Forall (fun i => (vi_sb i <= p_byte p <= vi_eb i)%Z) l.
+Proof. intros prefill file opens empties vals p fuel c e l Hw H. exact (value_cands_reach_cursor prefill file opens empties vals p fuel c e Hw l H). Qed.
+Print Assumptions C06_value_candidates_reach_cursor.
